@@ -485,6 +485,7 @@ func hitOf(f c27Fault, o c27Outcome) (desc string, ok bool) {
 
 func c27Sizes(r *vk.Run, n int) [][2]int {
 	rng := r.Rand("sizes")
+	quick := r.Quick()
 	pick := func() int {
 		switch rng.Intn(8) {
 		case 0:
@@ -498,6 +499,9 @@ func c27Sizes(r *vk.Run, n int) [][2]int {
 		case 4, 5:
 			return rng.Intn(256 * 1024)
 		default:
+			if quick && rng.Intn(2) == 0 {
+				return rng.Intn(512 * 1024)
+			}
 			return rng.Intn(3*1024*1024 + 1)
 		}
 	}
@@ -527,7 +531,7 @@ func c27() {
 		r.Inconclusive("strace not installed")
 		r.Finish("strace missing", 1)
 	}
-	nCases := r.Pick(24, 240)
+	nCases := r.Pick(10, 160)
 	sizes := c27Sizes(r, nCases)
 	scratch := r.Scratch()
 	errnos := []string{"EIO", "ENOSPC", "EACCES", "EINTR", "EDQUOT", "EROFS"}
@@ -610,6 +614,7 @@ func c27() {
 			return o, true
 		}
 
+		secondOrder := !r.Quick() || i%2 == 0
 		for _, s := range steps {
 			// crash just before the operation
 			run(c27Fault{Kind: "kill", Syscall: s.Name, When: s.Ordinal})
@@ -629,6 +634,9 @@ func c27() {
 					continue
 				}
 				// second-order faults: every syscall the failure path executed after the injected one
+				if !secondOrder {
+					continue
+				}
 				br := o.Trace.bracket()
 				after := false
 				for _, e2 := range br {
@@ -652,22 +660,50 @@ func c27() {
 			}
 		}
 
-		// Real partial writes through RLIMIT_FSIZE (no strace).
-		if len(c.newData) > 0 {
-			for _, variant := range []string{"ignore", "die"} {
-				limit := rng.Intn(len(c.newData))
-				if rng.Intn(4) == 0 {
+		// Real partial writes through RLIMIT_FSIZE: the kernel writes only a prefix of the
+		// temporary file; then either the next write fails with EFBIG (no strace needed), or the
+		// process is killed on entry of that next write (crash with a partially written file).
+		if len(c.newData) > 1 {
+			var writeOrdinal int
+			for _, s := range steps {
+				if s.Name == "write" {
+					writeOrdinal = s.Ordinal
+					break
+				}
+			}
+			for _, variant := range []string{"efbig", "kill"} {
+				limit := 1 + rng.Intn(len(c.newData)-1)
+				if variant == "efbig" && rng.Intn(4) == 0 {
 					limit = 0
 				}
+				env := []string{fmt.Sprintf("VERIF_C27_FSIZE=%d", limit), "VERIF_C27_XFSZ=ignore"}
 				f := c27Fault{Kind: "fsize-efbig", Syscall: "write", Limit: limit}
-				if variant == "die" {
-					f.Kind = "fsize-sigxfsz"
+				var o c27Outcome
+				live := false
+				if variant == "efbig" {
+					fmt.Printf("case %d: fault %s\n", i, vk.JSON(f))
+					o = c.runChild("fsize", nil, env, true)
+					live = o.Ready && o.Reported == "error" && strings.Contains(o.ErrText, "file too large")
+				} else {
+					if writeOrdinal == 0 {
+						continue
+					}
+					f = c27Fault{Kind: "fsize-short-write-then-kill", Syscall: "write", When: writeOrdinal + 1, Limit: limit}
+					fmt.Printf("case %d: fault %s\n", i, vk.JSON(f))
+					o = c.runChild("fsizekill", []string{fmt.Sprintf("write:signal=SIGKILL:when=%d", writeOrdinal+1)}, env, false)
+					if o.Trace != nil && o.Trace.M1 >= 0 && o.Trace.M2 < 0 && o.Trace.KilledBy == "SIGKILL" {
+						br := o.Trace.bracket()
+						nw := 0
+						for _, e := range br {
+							if e.Name == "write" {
+								nw++
+							}
+						}
+						// first write returned short, the process died entering the second one
+						live = nw == 2 && len(br) > 0 && br[len(br)-1].Name == "write" && strings.HasPrefix(strings.TrimSpace(br[len(br)-2].Result), fmt.Sprint(limit))
+					}
 				}
-				fmt.Printf("case %d: fault %s\n", i, vk.JSON(f))
-				o := c.runChild("fsize", nil, []string{fmt.Sprintf("VERIF_C27_FSIZE=%d", limit), "VERIF_C27_XFSZ=" + variant}, true)
 				r.Eval(1)
-				live := o.Ready && ((variant == "ignore" && o.Reported == "error" && strings.Contains(o.ErrText, "file too large")) ||
-					(variant == "die" && o.Reported == "" && strings.Contains(o.WaitSig, "file size limit")))
 				if !live {
 					r.Inconclusive("file-size limit did not take effect as expected")
 					fmt.Printf("case %d: fsize %s limit=%d: ready=%v reported=%q err=%q sig=%q\n", i, variant, limit, o.Ready, o.Reported, o.ErrText, o.WaitSig)
@@ -692,6 +728,6 @@ func c27() {
 	}
 	sort.Strings(keys)
 	fmt.Println("C27 summary:", strings.Join(keys, " "))
-	floor := r.Pick(15, 30)
+	floor := r.Pick(12, 30)
 	r.Finish("one case = one run of the real WriteFileAtomic / MarshalAndSaveProtobuf in a child process with one fault (SIGKILL on entry of, or errno from, the k-th syscall of the bracket; zero-byte write; RLIMIT_FSIZE partial write) or a fault pair (failure + fault in the clean-up path it exposes); distinct = (mode, previous file present, syscall(s) actually hit according to the run's own strace log, errno, reported result)", floor)
 }
